@@ -22,6 +22,7 @@ the characters `% ; |` are written `%XX`.
 `timecoord <generic|shoc_standard|shoc_simple> <dims,|-> name|units-or-!|dt;…` → name | `-`
 `timecoordcur …` same line → what the present SHOC overrides return (a bare dimension counts)
 `savetime …`     same line → variable whose units `to_netcdf` rewrites | `-` | `ERR` (save raises)
+`savetimecur …`  same line → the same with the present SHOC overrides
 `propcheck offset <m>`         → `1` iff parseOffset (formatOffset m) = some m
 `propcheck offsetcur <m>`      → same for the unrepaired formatter
 `propcheck fmt <calendar> <units…>` → `1` iff output (if any) has the EMS form and the same instant
@@ -171,7 +172,7 @@ def step (line : String) : String :=
         else "BAD"
       | _, _, _, _ => "BAD"
     | _ => "BAD"
-  | "timecoord" | "timecoordcur" | "savetime" =>
+  | "timecoord" | "timecoordcur" | "savetime" | "savetimecur" =>
     let (conv, r1) := cut rest
     let (dims, vs) := cut r1
     let k : Option ConvKind := match String.ofList conv with
@@ -183,7 +184,9 @@ def step (line : String) : String :=
       match String.ofList op with
       | "timecoord" => (timeCoordinate k vs).getD "-"
       | "timecoordcur" => (timeCoordinateCurrent k dims vs).getD "-"
-      | _ => match saveTimeVariable (timeCoordinateCurrent k dims vs) vs with
+      | o =>
+        let found := if o == "savetime" then timeCoordinate k vs else timeCoordinateCurrent k dims vs
+        match saveTimeVariable found vs with
         | none => "-"
         | some (some n) => n
         | some none => "ERR"
